@@ -39,6 +39,7 @@ type mainCase struct {
 	Info          string        `json:"info"`
 	Fmt           string        `json:"fmt"`
 	Flags         []string      `json:"flags"`
+	Usage         string        `json:"usage"`
 	Files         []mainFile    `json:"files"`
 	Stdin         string        `json:"stdin"`
 	Mode          string        `json:"mode"`
@@ -51,7 +52,7 @@ type mainCase struct {
 	InfoOnStdout  bool          `json:"infoOnStdout"`
 }
 
-const mainAlphabet = "CONSTANTS Pers = {\"gxz\", \"unxz\", \"xzcat\", \"lzma\", \"unlzma\", \"lzcat\"}\n Ops = {\"none\", \"z\", \"d\"}\n Infos = {\"none\", \"h\", \"L\", \"V\"}\n Fmts = {\"none\", \"xz\", \"lzma\", \"alone\", \"auto\", \"bogus\"}\n FlagPool = {\"k\", \"c\", \"f\"}\n Kinds = {\"reg\", \"dir\", \"missing\", \"symlink\", \"dangling\", \"setgid\", \"dash\"}\n Contents = {\"text\", \"xzdata\", \"lzmadata\"}\n"
+const mainAlphabet = "CONSTANTS Pers = {\"gxz\", \"unxz\", \"xzcat\", \"lzma\", \"unlzma\", \"lzcat\"}\n Ops = {\"none\", \"z\", \"d\"}\n Infos = {\"none\", \"h\", \"L\", \"V\"}\n Fmts = {\"none\", \"xz\", \"lzma\", \"alone\", \"auto\", \"bogus\"}\n FlagPool = {\"k\", \"c\", \"f\"}\n Usages = {\"none\", \"none\", \"short\", \"long\", \"noarg\", \"argnotallowed\"}\n Kinds = {\"reg\", \"dir\", \"missing\", \"symlink\", \"dangling\", \"setgid\", \"dash\"}\n Contents = {\"text\", \"xzdata\", \"lzmadata\"}\n"
 
 // snapshot describes a directory: name -> "F:<content>" | "L:<link target>" | "D".
 func snapshot(dir string) map[string]string {
@@ -78,7 +79,7 @@ func snapshot(dir string) map[string]string {
 }
 
 func c15Main(c *hx.Ctx, bin string) {
-	mcCfg := "SPECIFICATION Spec\nCONSTANTS Pers = {\"gxz\", \"unxz\", \"xzcat\", \"lzma\", \"unlzma\", \"lzcat\"}\n Ops = {\"none\", \"z\", \"d\"}\n Infos = {\"none\", \"h\"}\n Fmts = {\"none\", \"lzma\", \"auto\", \"bogus\"}\n FlagPool = {\"k\", \"c\", \"f\"}\n Kinds = {\"reg\", \"dir\", \"symlink\", \"setgid\", \"dash\"}\n Contents = {\"text\", \"xzdata\", \"lzmadata\"}\n MaxFiles = 2\nINVARIANTS RemoveOnlyWithFile InfoTouchesNothing ZForces CatNeverWritesFiles Independent\nCHECK_DEADLOCK FALSE\n"
+	mcCfg := "SPECIFICATION Spec\nCONSTANTS Pers = {\"gxz\", \"unxz\", \"xzcat\", \"lzma\", \"unlzma\", \"lzcat\"}\n Ops = {\"none\", \"z\", \"d\"}\n Infos = {\"none\", \"h\"}\n Fmts = {\"none\", \"lzma\", \"auto\", \"bogus\"}\n FlagPool = {\"k\", \"c\", \"f\"}\n Usages = {\"none\", \"long\"}\n Kinds = {\"reg\", \"dir\", \"symlink\", \"setgid\", \"dash\"}\n Contents = {\"text\", \"xzdata\", \"lzmadata\"}\n MaxFiles = 2\nINVARIANTS RemoveOnlyWithFile InfoTouchesNothing ZForces CatNeverWritesFiles Independent\nCHECK_DEADLOCK FALSE\n"
 	c.DesignCheck(tlc.Opts{Module: "GxzMain", Cfg: "mc.cfg", Files: map[string][]byte{"mc.cfg": []byte(mcCfg)}, Workers: 8, Timeout: 10 * time.Minute}, []string{"ChoosePers", "ChooseOpts", "AddFile", "Finish"})
 	var cases []mainCase
 	seen := map[string]bool{}
@@ -106,7 +107,7 @@ func c15Main(c *hx.Ctx, bin string) {
 	}
 	collect(r, 1)
 	// exhaustive: at most one operand, no information option, formats none/lzma/bogus
-	bfsCfg := "SPECIFICATION Spec\nCONSTANTS Pers = {\"gxz\", \"unxz\", \"xzcat\", \"lzma\", \"unlzma\", \"lzcat\"}\n Ops = {\"none\", \"z\", \"d\"}\n Infos = {\"none\"}\n Fmts = {\"none\", \"lzma\", \"bogus\"}\n FlagPool = {\"k\", \"c\", \"f\"}\n Kinds = {\"reg\", \"dir\", \"missing\", \"symlink\", \"dangling\", \"setgid\", \"dash\"}\n Contents = {\"text\", \"xzdata\", \"lzmadata\"}\n MaxFiles = 1\nINVARIANTS Emit\nCHECK_DEADLOCK FALSE\n"
+	bfsCfg := "SPECIFICATION Spec\nCONSTANTS Pers = {\"gxz\", \"unxz\", \"xzcat\", \"lzma\", \"unlzma\", \"lzcat\"}\n Ops = {\"none\", \"z\", \"d\"}\n Infos = {\"none\"}\n Fmts = {\"none\", \"lzma\", \"bogus\"}\n FlagPool = {\"k\", \"c\", \"f\"}\n Usages = {\"none\"}\n Kinds = {\"reg\", \"dir\", \"missing\", \"symlink\", \"dangling\", \"setgid\", \"dash\"}\n Contents = {\"text\", \"xzdata\", \"lzmadata\"}\n MaxFiles = 1\nINVARIANTS Emit\nCHECK_DEADLOCK FALSE\n"
 	r2 := c.TLC(tlc.Opts{Module: "GxzMain", Cfg: "bfs.cfg", Files: map[string][]byte{"bfs.cfg": []byte(bfsCfg)}, Timeout: 10 * time.Minute, Xss: "64m"})
 	if !r2.OK {
 		c.Inconclusive("GxzMain enumeration failed: %s %s\n%s", r2.Violation, r2.ErrText, r2.Tail(10))
@@ -190,9 +191,23 @@ func c15Main(c *hx.Ctx, bin string) {
 			argv = append(argv, "-"+f)
 		}
 		if k.Fmt != "none" {
+			if ci%5 == 0 && k.Fmt != "bogus" {
+				argv = append(argv, "--format", "xz") // an earlier -F: the last one counts
+			}
 			argv = append(argv, "-F", k.Fmt)
 		}
+		switch k.Usage {
+		case "short":
+			argv = append(argv, "-x")
+		case "long":
+			argv = append(argv, "--bogus-option")
+		case "argnotallowed":
+			argv = append(argv, "--keep=true")
+		}
 		argv = append(argv, names...)
+		if k.Usage == "noarg" {
+			argv = append(argv, "-F") // option argument missing at the end of the line
+		}
 		cmd := exec.Command(bin, argv...)
 		cmd.Args[0] = k.Pers // the personality is chosen by the program name
 		cmd.Dir = dir
